@@ -111,6 +111,7 @@ Definition py_eq_obj (a b : pv) : pm bool := lift (Val.py_eq_obj a b).
 Definition py_to_bytes_be (v k : pv) : pm pv := lift (Val.py_to_bytes_be v k).
 Definition py_range (v : pv) : pm pv := lift (Val.py_range v).
 Definition py_enumerate (c st : pv) : pm pv := lift (Val.py_enumerate c st).
+Definition py_get_default (d k dflt : pv) : pm pv := lift (Val.py_get_default d k dflt).
 
 (* ---- operations taking computations ---- *)
 Fixpoint py_all (l : list pv) (f : pv -> pm pv) : pm pv :=
@@ -141,6 +142,18 @@ Fixpoint pfold (l : list pv) (acc : pv) (body : pv -> pv -> pm pv) : pm pv :=
   end.
 Definition py_for (c : pv) (acc : pv) (body : pv -> pv -> pm pv) : pm pv :=
   mbind (py_iter c) (fun l => pfold l acc body).
+
+(* sorted(c, key=f) where the keys are bytes objects; keys are computed for every element first, in order *)
+Fixpoint keys_of (l : list pv) (f : pv -> pm pv) : pm (list (bytes * pv)) :=
+  match l with
+  | [] => mret []
+  | x :: r => mbind (f x) (fun k => match k with
+                                    | VBytes kb => mbind (keys_of r f) (fun rest => mret ((kb, x) :: rest))
+                                    | _ => mstuck
+                                    end)
+  end.
+Definition py_sorted_by (f : pv -> pm pv) (c : pv) : pm pv :=
+  mbind (py_iter c) (fun l => mbind (keys_of l f) (fun kv => mret (VList (sort_keyed kv)))).
 
 (* for x in c with `return` inside the body: the body yields [VInt 0; state] (go on) or [VInt 2; value]
    (return); the loop yields [VInt 1; state] when the sequence is exhausted, or the [VInt 2; value] *)
